@@ -310,6 +310,133 @@ class _LoopAppendToExtend:
         return new
 
 
+class _SplitTupleAssign(ast.NodeTransformer):
+    """`t1, t2 = e1, e2` (same length, no stars) -> the values are taken first, then stored left to right, which is what Python
+    does; when the values are plain names/constants/attribute reads that no target can change, simply `t1 = e1; t2 = e2`."""
+
+    def __init__(self) -> None:
+        self._n = 0
+
+    def visit_Assign(self, node: ast.Assign) -> Any:
+        if not (len(node.targets) == 1 and isinstance(node.targets[0], (ast.Tuple, ast.List)) and isinstance(node.value, (ast.Tuple, ast.List))
+                and len(node.targets[0].elts) == len(node.value.elts) and len(node.value.elts) >= 2
+                and not any(isinstance(x, ast.Starred) for x in node.targets[0].elts + node.value.elts)):
+            return node
+        tg, vs = node.targets[0].elts, node.value.elts
+
+        def atom(e: ast.expr) -> bool:
+            while isinstance(e, ast.Attribute):
+                e = e.value
+            return isinstance(e, (ast.Name, ast.Constant))
+
+        tnames = [ast.unparse(t) for t in tg]
+        vnames = [ast.unparse(v) for v in vs]
+        hazard = any(v == t or v.startswith(t + ".") or v.startswith(t + "[") or t.startswith(v + ".") for v in vnames for t in tnames if not v[:1].isdigit() and not v[:1] in "'\"")
+        out: List[ast.stmt] = []
+        if all(atom(v) for v in vs) and not hazard:
+            for t, v in zip(tg, vs):
+                out.append(ast.copy_location(ast.Assign([t], v), node))
+        else:
+            tmps = []
+            for v in vs:
+                self._n += 1
+                nm = f"__tup{self._n}"
+                tmps.append(nm)
+                out.append(ast.copy_location(ast.Assign([ast.Name(nm, ast.Store())], v), node))
+            for t, nm in zip(tg, tmps):
+                out.append(ast.copy_location(ast.Assign([t], ast.Name(nm, ast.Load())), node))
+        for o in out:
+            ast.fix_missing_locations(o)
+        return out
+
+
+class _InlineGenExpLoops:
+    """`G = (E for T in IT if C..)` ... `for X in G: BODY` in one block, G a local name bound once and used only as that loop's
+    iterable, IT a plain name/attribute that nothing in between rebinds:
+
+        for __g_T in IT:  if not C: continue;  X = E;  BODY
+
+    (a generator expression evaluates its outermost iterable when it is created and everything else lazily, element by element,
+    which is what the loop does; the generator's own variable is renamed so that it cannot clash)."""
+
+    def run(self, tree: ast.AST) -> ast.AST:
+        for fn in ast.walk(tree):
+            if isinstance(fn, (ast.FunctionDef, ast.AsyncFunctionDef)):
+                self._fn = fn
+                fn.body = self._block(fn.body)
+        return tree
+
+    def _block(self, body: List[ast.stmt]) -> List[ast.stmt]:
+        out: List[ast.stmt] = []
+        for idx, st in enumerate(body):
+            for fld in ("body", "orelse", "finalbody"):
+                sub = getattr(st, fld, None)
+                if isinstance(sub, list) and sub and isinstance(sub[0], ast.stmt) and not isinstance(st, (ast.FunctionDef, ast.AsyncFunctionDef, ast.ClassDef)):
+                    setattr(st, fld, self._block(sub))
+            rep = self._rewrite(out, st) if isinstance(st, ast.For) and isinstance(st.iter, ast.Name) else None
+            if rep is not None:
+                out[:] = rep
+                continue
+            out.append(st)
+        return out
+
+    def _rewrite(self, before: List[ast.stmt], loop: ast.For) -> Optional[List[ast.stmt]]:
+        g = loop.iter.id        # type: ignore[attr-defined]
+        if loop.orelse:
+            return None
+        # the one binding of g in the whole function, in this block, a generator expression with one clause
+        binds = [n for n in ast.walk(self._fn) if isinstance(n, (ast.Assign, ast.AnnAssign, ast.AugAssign, ast.NamedExpr, ast.For, ast.comprehension, ast.With))
+                 and any(isinstance(x, ast.Name) and x.id == g and isinstance(x.ctx, ast.Store) for x in ast.walk(n) if not isinstance(x, (ast.FunctionDef, ast.Lambda)))]
+        defs = [i for i, b in enumerate(before) if isinstance(b, (ast.Assign, ast.AnnAssign)) and isinstance(getattr(b, "value", None), ast.GeneratorExp)
+                and [t.id for t in (b.targets if isinstance(b, ast.Assign) else [b.target]) if isinstance(t, ast.Name)] == [g]]
+        if len(defs) != 1:
+            return None
+        d = before[defs[0]]
+        if len([n for n in binds if n is d or any(x is d for x in ast.walk(n))]) != len(binds) or len(binds) != 1:
+            return None
+        uses = [n for n in ast.walk(self._fn) if isinstance(n, ast.Name) and n.id == g and isinstance(n.ctx, ast.Load)]
+        if len(uses) != 1 or uses[0] is not loop.iter:
+            return None
+        ge = d.value           # type: ignore[union-attr]
+        if len(ge.generators) != 1 or ge.generators[0].is_async:
+            return None
+        gen = ge.generators[0]
+        it = gen.iter
+        chain = it
+        while isinstance(chain, ast.Attribute):
+            chain = chain.value
+        if not isinstance(chain, ast.Name):
+            return None
+        used = {n.id for n in ast.walk(it) if isinstance(n, ast.Name)}
+        between = before[defs[0] + 1:]
+        for b in between:
+            for n in ast.walk(b):
+                if isinstance(n, ast.Name) and n.id in used and isinstance(n.ctx, (ast.Store, ast.Del)):
+                    return None
+                if isinstance(n, (ast.Yield, ast.YieldFrom, ast.Await)):
+                    return None
+        if any(isinstance(n, (ast.Yield, ast.YieldFrom, ast.Await, ast.NamedExpr, ast.Lambda)) for x in [ge.elt] + gen.ifs for n in ast.walk(x)):
+            return None
+        import copy as _c
+        tnames = [n.id for n in ast.walk(gen.target) if isinstance(n, ast.Name)]
+        mapping = {t: ast.Name(f"__g_{g}_{t}", ast.Load()) for t in tnames}
+        rn = _Rename(mapping)
+        target = rn.visit(_c.deepcopy(gen.target))
+        guards: List[ast.stmt] = [ast.If(ast.UnaryOp(ast.Not(), rn.visit(_c.deepcopy(c))), [ast.Continue()], []) for c in gen.ifs]
+        bind = ast.Assign([_c.deepcopy(loop.target)], rn.visit(_c.deepcopy(ge.elt)))
+        for n in ast.walk(bind.targets[0]):
+            if isinstance(n, (ast.Name, ast.Tuple, ast.List, ast.Starred)):
+                n.ctx = ast.Store()
+        new = ast.For(target, _c.deepcopy(it), guards + [bind] + loop.body, [], None)
+        for n in ast.walk(target):
+            if isinstance(n, (ast.Name, ast.Tuple, ast.List)):
+                n.ctx = ast.Store()
+        ast.copy_location(new, loop)
+        ast.fix_missing_locations(new)
+        new._sa_genexp_inlined = norm(ge)        # type: ignore[attr-defined]
+        return before[:defs[0]] + between + [new]
+
+
 class _Rename(ast.NodeTransformer):
     def __init__(self, mapping: Dict[str, ast.expr]):
         self.mapping = mapping
@@ -550,7 +677,9 @@ class Module:
             self.tree = ast.parse(src, filename=rel)
         except SyntaxError as e:  # pragma: no cover
             raise AnalysisError(f"{rel} does not parse: {e}")
+        self.tree = _SplitTupleAssign().visit(self.tree)
         self.tree = _DesugarEnumerate().visit(self.tree)
+        self.tree = _InlineGenExpLoops().run(self.tree)
         self.tree = _DesugarQuantifiers().run(self.tree)
         self.tree = _LoopAppendToExtend().run(self.tree)
         self.functions: Dict[str, ast.FunctionDef] = {}
@@ -828,6 +957,10 @@ class Program:
             if parts[1] in ci.methods:
                 fn = ci.methods[parts[1]]
                 return _descend(fn, parts[2:], modname, qual)
+            # inherited from a base class defined in the package (a refactoring moved the method up)
+            for c in self.mro(ci)[1:]:
+                if isinstance(c, ClassInfo) and c.module.name.startswith("htmltools") and parts[1] in c.methods:
+                    return _descend(c.methods[parts[1]], parts[2:], c.module.name, qual)
         elif parts[0] in m.functions:
             return _descend(m.functions[parts[0]], parts[1:], modname, qual)
         for new_q, old_q in getattr(self, "qual_alias", {}).items():
